@@ -14,19 +14,23 @@ Section Hybrid.
 
   (* inputs of one step: e0 = given electrical power of the PTI/PTO (given-power mode), the shaft
      load, the full-PTI flag of this step, and whether ANY step of the series is full-PTI *)
-  Record hin := { h_e0 : Q; h_load : Q; h_full : bool; h_any_full : bool }.
+  (* h_bal: at this step the machine shares the load with the sources (sharing flag 0); h_e0 is then the
+     balancing power -rated x (bus load fraction) every electric pass writes (the same in the first and in
+     the second pass as long as no OTHER machine of the bus changes its electrical power in between) *)
+  Record hin := { h_e0 : Q; h_load : Q; h_full : bool; h_any_full : bool; h_bal : bool }.
 
   (* first electric pass: reads e0, writes shaft := to_shaft e0 *)
   Definition s1 (i : hin) : Q := to_shaft (h_e0 i).
   (* shaft pass: full-PTI steps overwrite the shaft power by the load; electrical := to_elec shaft *)
   Definition s2 (i : hin) : Q := if h_full i then h_load i else s1 i.
   Definition e2 (i : hin) : Q := to_elec (s2 i).
-  (* second electric pass (only if some step is full-PTI): reads e2, writes shaft := to_shaft e2 *)
-  Definition shaft_final (i : hin) : Q := if h_any_full i then to_shaft (e2 i) else s2 i.
-  Definition elec_final (i : hin) : Q := e2 i.
+  (* second electric pass (only if some step is full-PTI): reads e2, writes shaft := to_shaft e2
+     -- a load-sharing machine gets its balancing power written again instead *)
+  Definition elec_final (i : hin) : Q := if h_any_full i && h_bal i then h_e0 i else e2 i.
+  Definition shaft_final (i : hin) : Q := if h_any_full i then to_shaft (elec_final i) else s2 i.
 
   (* what each side was balanced against by its LAST pass *)
-  Definition elec_balanced_with (i : hin) : Q := if h_any_full i then e2 i else h_e0 i.
+  Definition elec_balanced_with (i : hin) : Q := if h_any_full i then elec_final i else h_e0 i.
   Definition shaft_balanced_with (i : hin) : Q := s2 i.
 
   (* imbalance of each side when read with the machine's final powers *)
